@@ -251,6 +251,7 @@ func checkOffsetsAndLengths(p *Program, r *Result, isSink func(ssa.CallInstructi
 			}
 			var opSrc, startSrc, lenSrc *argSource
 			lenOK := false
+			var startLocal, lenSubLocal ssa.Value // start taken as a snapshot inside the helper itself
 			for _, in := range instrsOf(h) {
 				st, ok := in.(*ssa.Store)
 				if !ok {
@@ -265,14 +266,35 @@ func checkOffsetsAndLengths(p *Program, r *Result, isSink func(ssa.CallInstructi
 					opSrc = argSourceOf(h, st.Val)
 				case "GroupStart":
 					startSrc = argSourceOf(h, st.Val)
+					if sizeCallOf(st.Val) != nil {
+						startLocal = stripConv(st.Val)
+					}
 				case "GroupLength":
 					if b, ok := stripConv(st.Val).(*ssa.BinOp); ok && b.Op == token.SUB && sizeCallOf(b.X) != nil {
 						lenOK = true
 						lenSrc = argSourceOf(h, b.Y)
+						lenSubLocal = stripConv(b.Y)
 					}
 				}
 			}
 			if opSrc == nil && startSrc == nil && !lenOK {
+				continue
+			}
+			// the helper does the whole group itself: snapshot, writes (through a function it is handed), literal
+			if startLocal != nil && lenOK && lenSubLocal == startLocal {
+				sc := sizeCallOf(startLocal)
+				before := true
+				for _, c2 := range callsIn(h, func(c2 ssa.CallInstruction) bool { ok, _ := isSink(c2); return ok }) {
+					if !instrDominates(sc, c2) {
+						before = false
+					}
+				}
+				order = append(order, ci.Value())
+				if before {
+					r.held("C05.b", funcName(fn), "SummaryOffset built by "+funcName(h), p.pos(ci.Pos()), "start is a position snapshot taken in the helper before all of its writes; length is the current position minus that snapshot (which records follow is decided by the caller's table: pairing not judged)")
+				} else {
+					r.violated("C05.b", funcName(fn), "SummaryOffset built by "+funcName(h), p.pos(ci.Pos()), "the group's start snapshot is taken after the helper has already written to the sink")
+				}
 				continue
 			}
 			hname := funcName(h)
@@ -867,8 +889,44 @@ func checkSummaryOffsetsComplete(p *Program, r *Result, isSink func(ssa.CallInst
 	n := 0
 	for _, ci := range callsIn(fn, func(ci ssa.CallInstruction) bool { ok, _ := isSink(ci); return ok }) {
 		n++
+		// a helper that writes the group and hands back its summary offset, nil when it wrote nothing: the caller must
+		// append whenever the result is not nil, and the helper must return a fresh record on every path that wrote
+		var assume []ssa.Value
+		if h := ci.Common().StaticCallee(); h != nil && p.transparent(h) {
+			res := h.Signature.Results()
+			for k := 0; k < res.Len(); k++ {
+				nt, _ := structOf(res.At(k).Type())
+				if nt == nil || nt.Obj().Name() != "SummaryOffset" {
+					continue
+				}
+				fresh := true
+				for _, c2 := range callsIn(h, func(c2 ssa.CallInstruction) bool { ok, _ := isSink(c2); return ok }) {
+					k := k
+					if !pathsToSuccessHit(h, c2, func(in ssa.Instruction) bool {
+						ret, ok := in.(*ssa.Return)
+						if !ok || k >= len(ret.Results) {
+							return false
+						}
+						_, isAlloc := ret.Results[k].(*ssa.Alloc)
+						return isAlloc
+					}) {
+						fresh = false
+					}
+				}
+				if call, ok := ci.(*ssa.Call); ok && fresh {
+					for _, ref := range *call.Referrers() {
+						if ex, ok := ref.(*ssa.Extract); ok && ex.Index == k {
+							assume = append(assume, ex)
+						}
+					}
+					if res.Len() == 1 {
+						assume = append(assume, call)
+					}
+				}
+			}
+		}
 		// every path from after the call to a successful return passes an append
-		ok := pathsToSuccessHit(fn, ci, pred)
+		ok := pathsToSuccessHit(fn, ci, pred, assume...)
 		if !ok {
 			bad++
 			what := calleeRepoName(ci)
@@ -888,11 +946,27 @@ func checkSummaryOffsetsComplete(p *Program, r *Result, isSink func(ssa.CallInst
 }
 
 // pathsToSuccessHit: every path from `from` to a return with nil error executes an instruction satisfying pred.
-func pathsToSuccessHit(fn *ssa.Function, from ssa.Instruction, pred func(ssa.Instruction) bool) bool {
+func pathsToSuccessHit(fn *ssa.Function, from ssa.Instruction, pred func(ssa.Instruction) bool, nonNil ...ssa.Value) bool {
 	type key struct {
 		b *ssa.BasicBlock
 	}
 	seen := map[*ssa.BasicBlock]bool{}
+	// successors to follow: at a nil-test of a value assumed non-nil only the non-nil side
+	succsOf := func(b *ssa.BasicBlock) []*ssa.BasicBlock {
+		if iff, ok := b.Instrs[len(b.Instrs)-1].(*ssa.If); ok {
+			if c, ok := iff.Cond.(*ssa.BinOp); ok && (c.Op == token.EQL || c.Op == token.NEQ) {
+				for _, v := range nonNil {
+					if (c.X == v && isNilConst(c.Y)) || (c.Y == v && isNilConst(c.X)) {
+						if c.Op == token.NEQ {
+							return b.Succs[:1]
+						}
+						return b.Succs[1:]
+					}
+				}
+			}
+		}
+		return b.Succs
+	}
 	var walk func(b *ssa.BasicBlock, start int) bool
 	walk = func(b *ssa.BasicBlock, start int) bool {
 		for i := start; i < len(b.Instrs); i++ {
@@ -908,7 +982,7 @@ func pathsToSuccessHit(fn *ssa.Function, from ssa.Instruction, pred func(ssa.Ins
 				return false
 			}
 		}
-		for _, s := range b.Succs {
+		for _, s := range succsOf(b) {
 			if seen[s] {
 				continue
 			}
